@@ -307,6 +307,21 @@ fn decode(ctl: &[u8]) -> Tree {
                 path = vec![item.to_string()];
             }
         }
+        if block_imports.len() == 1 && block_imports[0].1.len() >= 3 && c.chance(110) {
+            // the same import written as two imports of one block, the second one going through the
+            // alias of the first, in either order: `import pkg.a.b; import b.f;` / `import b.f; import
+            // pkg.a.b;`.  With three module names in the pool the alias is often also the name of
+            // something visible further out, which the block's own import has to hide.
+            let (d, full) = block_imports[0].clone();
+            let k = 1 + c.below(full.len() - 2);
+            let alias = full[k].clone();
+            if alias != "pkg" && alias != "super" && Some(&alias) != full.last() {
+                let head = full[..=k].to_vec();
+                let mut tail = vec![alias];
+                tail.extend(full[k + 1..].iter().cloned());
+                block_imports = if c.chance(128) { vec![(d, head), (d, tail)] } else { vec![(d, tail), (d, head)] };
+            }
+        }
         let local = if c.chance(40) { Some((CONST_NAMES[c.below(2)].to_string(), 700 + i as i32)) } else { None };
         let nested_use = c.chance(128) || block_imports.iter().any(|(d, _)| *d == 1);
         let import_after_use = c.chance(100);
@@ -751,6 +766,41 @@ impl WorkerState for W {
                     o
                 }
                 Err(e) => Outcome::fail("wrong-error-kind", host::render_report(&e)),
+            };
+        }
+        if case.first().map(|c| c.as_slice()) == Some(b"#!main-returns") {
+            // literal tree: ["#!main-returns", expected value, relative path, contents, ...]:
+            // `fn main() -> i32` of pkg.roto has to return the value the lookup rules designate
+            let _ = std::fs::remove_dir_all(&self.tmp);
+            let want: i32 = String::from_utf8_lossy(case.get(1).map(|c| c.as_slice()).unwrap_or(b"0")).trim().parse().unwrap_or(0);
+            let mut text = String::new();
+            let mut i = 2;
+            while i + 1 < case.len() {
+                let rel = String::from_utf8_lossy(&case[i]).to_string();
+                let body = String::from_utf8_lossy(&case[i + 1]).to_string();
+                let p = self.tmp.join(&rel);
+                let _ = std::fs::create_dir_all(p.parent().unwrap());
+                let _ = std::fs::write(&p, &body);
+                let _ = writeln!(text, "=== {rel} ===\n{body}");
+                i += 2;
+            }
+            let sig = format!("resolved-to-wrong-item:literal:{:016x}", fnv(text.as_bytes()));
+            return match FileTree::read(&self.tmp).and_then(|ft| ft.compile(&self.rt)) {
+                Ok(mut pkg) => match pkg.get_function::<fn() -> i32>("main") {
+                    Ok(f) => {
+                        let got = f.call();
+                        if got == want {
+                            let mut o = Outcome::pass();
+                            o.nontrivial = true;
+                            o.render = Some(text);
+                            o
+                        } else {
+                            Outcome::fail(sig, format!("main() returned {got}, the lookup rules designate {want}\n{text}"))
+                        }
+                    }
+                    Err(e) => Outcome::fail("literal:no-main", format!("{e}\n{text}")),
+                },
+                Err(e) => Outcome::fail("rejected-reachable-name:literal", format!("{}\n{text}", host::render_report(&e))),
             };
         }
         let empty: Vec<u8> = Vec::new();
